@@ -139,6 +139,45 @@ def run(ctx):
     if n3 < 5:
         raise Broken("C17.R3: only %d receive ops with to_app accounting" % n3)
 
+    # from_app bytes equal what the send op reports as accepted
+    send_ops = []
+    for t in tables:
+        f = t.slots.get("send")
+        if f is not None and f not in send_ops:
+            send_ops.append(f)
+    n3b = 0
+    for f in send_ops:
+        incs = [(e, rhs) for (g, e, lhs, rhs, op, c) in stores if g is f and c == "xcm_tp_cnt_from_app_bytes"]
+        if not incs:
+            continue
+        r3.instance(f.qname + " (from_app)")
+        n3b += 1
+        fb = fbs.get(f) or fbs.setdefault(f, B.FnBounds(eng, f))
+        lenp = f.params[2]["name"]
+        for e, rhs in incs:
+            inc = fb.lin(rhs)
+            wb, wi = f.where()[e]
+            for b in C.reachable_blocks(f, wb):
+                for i, x in enumerate(f.blocks[b].elems):
+                    m = f.nodes[x]
+                    if m["k"] != "return" or m.get("sub") is None or (b == wb and i < wi):
+                        continue
+                    rv = fb.lin(m["sub"])
+                    F = fb.before.get(x, B.Facts())
+                    if rv is not None and not rv[0] and rv[1] < 0:
+                        continue        # failure after acceptance (connection broke)
+                    if rv is not None and not rv[0] and rv[1] == 0:
+                        want, wtxt = B.lin_term(lenp), "the whole message (%s)" % lenp
+                    else:
+                        want, wtxt = rv, "the accepted count (%s)" % f.show(m["sub"])
+                    if inc is not None and want is not None and fb.prove_le(F, inc, want) and fb.prove_le(F, want, inc):
+                        r3.ok("%s: from_app_bytes grows by %s" % (f.qname, wtxt), "linear equality from path facts")
+                    else:
+                        r3.violation("%s:from_app-vs-accepted" % f.name, "from_app_bytes grows by %s but the call reports %s as accepted"
+                                     % (f.show(rhs), wtxt), loc=f.loc(e))
+    if n3b < 4:
+        raise Broken("C17.R3: only %d send ops with from_app accounting" % n3b)
+
     # ------------------------------------------------------------------ R4
     r4 = ctx.rule("C17.R4", "lower-layer message counters move only when a frame is complete")
     for (f, e, lhs, rhs, op, c) in stores:
@@ -174,6 +213,22 @@ def run(ctx):
             ss = [s for s, lab in C.edges(f, blk) if lab == want]
             if ss and (ss[0] in dom[b0] or ss[0] == b0):
                 good = True
+        # the bytes credited with the message are the complete payload length
+        bytes_c = c.replace("_msgs", "_bytes")
+        bs = [(e2, rhs2) for (g2, e2, lhs2, rhs2, op2_, c2) in stores if g2 is f and c2 == bytes_c and f.where()[e2][0] == b0]
+        fb = fbs.get(f) or fbs.setdefault(f, B.FnBounds(eng, f))
+        for e2, rhs2 in bs:
+            v = fb.lin(rhs2)
+            F = fb.before.get(e2, B.Facts())
+            eq = False
+            for tt in list(F.terms()) + ([list(v[0])[0]] if v and len(v[0]) == 1 else []):
+                if tt.startswith("mbuf_complete_payload_len(") and v is not None and fb.prove_le(F, v, B.lin_term(tt)) and fb.prove_le(F, B.lin_term(tt), v):
+                    eq = True
+            if eq:
+                r4.ok("%s: %s is credited with the complete payload length" % (f.qname, bytes_c), "equality facts")
+            else:
+                r4.violation("%s:%s:amount" % (f.name, bytes_c), "on frame completion %s grows by %s, which is not the frame's payload length"
+                             % (bytes_c, f.show(rhs2)), loc=f.loc(e2))
         if good:
             r4.ok("%s: %s is updated only on the completion edge" % (f.qname, c), "dominance")
         else:
